@@ -5,7 +5,9 @@ import (
 	"fmt"
 	"reflect"
 	"strings"
+	"time"
 
+	ch "github.com/ClickHouse/ch-go"
 	"github.com/ClickHouse/ch-go/proto"
 )
 
@@ -314,6 +316,21 @@ func runC16(c *Ctx) {
 	R.Rule = "histories over {Append k rows, Reset, Prepare, encode via EncodeColumn / WriteColumn+Flush / EncodeRawBlock, Infer(own type), Reset+DecodeColumn of valid data, Reset+failed (truncated) DecodeColumn, Rows/Row(i)} on real columns of every type and composition; after every encode the bytes are decoded by a fresh column and compared with a plain list-of-values model kept by the harness, with the encoding of a fresh column holding the same contents, and with the Lean model's bytes. Exhaustive short histories for LowCardinality / Enum / Array; random histories up to length 40 elsewhere. non-trivial = more than two steps; distinct by (type, history)."
 	r := c.Rng
 	c16ZeroRowBlockAfterRows(c, r.Fork())
+	// columns reused from round to round of a streamed INSERT (Reset + Append into the same memory): every block on the wire
+	// holds the rows of its own round
+	for _, ts := range []string{"UInt64", "Int32", "String", "LowCardinality(String)"} {
+		t, err := parseCH(ts)
+		if err != nil {
+			continue
+		}
+		for _, comp := range []ch.Compression{ch.CompressionDisabled, ch.CompressionLZ4} {
+			p := insertPlan{types: []*TNode{t}, names: []string{"c0"}, initial: 8, hasCB: true}
+			p.rounds = []inputRound{{Mut: "reset-append", Rows: 8, Ret: "nil"}, {Mut: "reset-append", Rows: 8, Ret: "nil"}, {Mut: "reset-append", Rows: 8, Ret: "nil"}, {Mut: "reset-append", Rows: 0, Ret: "eof"}}
+			c02ForcedPlan = &p
+			c02One(c, r.Fork(), simOpts{compression: comp, serverRev: 54460, readTimeout: 80 * time.Millisecond}, "C16")
+			c02ForcedPlan = nil
+		}
+	}
 	// exhaustive short histories over a small alphabet on the stateful types
 	alpha := []string{"append", "encode", "reset", "decode", "block"}
 	maxLen := 4
